@@ -772,8 +772,8 @@ func init() {
 	}
 	findings = append(findings, finding{Key: kBigOffsets,
 		What: "the range of a method is kept in 16 bits: a method that starts above 65535 gets its offset modulo 65536 in debug info and manifest; most such builds are refused by the final script check (some methods point to wrong offsets), for some paddings the contract is built and a method invoked through the manifest runs other code",
-		Src: "package foo\n\nfunc Big(a int) int {\n\ts := \"\"\n" + pad + "\treturn len(s) + a\n}\n\nfunc Main(a int) int {\n\treturn a + 42\n}\n",
-		Fn: "Main", Args: []Arg{{T: "int", I: 1}}, Res: "int", GoWant: "i:43"})
+		Src:  "package foo\n\nfunc Big(a int) int {\n\ts := \"\"\n" + pad + "\treturn len(s) + a\n}\n\nfunc Main(a int) int {\n\treturn a + 42\n}\n",
+		Fn:   "Main", Args: []Arg{{T: "int", I: 1}}, Res: "int", GoWant: "i:43"})
 }
 
 // runFinding executes the neo-go side of a reproduction and renders the outcome in the notation of the check.
